@@ -134,6 +134,9 @@ type maState struct {
 	taintedLoad  map[ssa.Value]bool
 	allocTainted map[*ssa.Alloc]bool
 	dirtyStore   map[int]ssa.Instruction // leaf -> a store of an old-dependent value
+	maybeDirty   map[int]ssa.Instruction // leaf -> a store of a value that is old-dependent only through a call (not decided)
+	cover        map[int][][2]int64      // leaf (array) -> constant sub-ranges filled so far in the current block
+	direct       bool                    // taint query mode: only dependence through loads and pure operations counts
 	anyStore     map[int]ssa.Instruction // leaf -> some store (clean or element store)
 	partial      map[int]string          // leaf -> description of a partial / conditional element loop
 	unknown      map[int]string          // leaf -> unsupported use
@@ -253,6 +256,9 @@ func (m *MustAssigner) Analyse(fn *ssa.Function, p int) *MustAssignResult {
 		}
 	}
 	missing := map[int]ssa.Instruction{}
+	// missingCertain: the leaf is unassigned at a return whose error result is the nil constant (a certain success);
+	// a return of an error *variable* that is not known to be non-nil only may be a success
+	missingCertain := map[int]bool{}
 	if !stable {
 		for i := range s.leaves {
 			s.unknown[i] = "definite-assignment rounds did not stabilise"
@@ -276,12 +282,16 @@ func (m *MustAssigner) Analyse(fn *ssa.Function, p int) *MustAssignResult {
 		if !ok {
 			continue
 		}
+		certain := returnsNilConst(ret)
 		for _, st := range s.successStates(b, ret) {
 			res.Returns++
 			for i := range st {
 				if !st[i] {
 					if _, dup := missing[i]; !dup {
 						missing[i] = ret
+					}
+					if certain {
+						missingCertain[i] = true
 					}
 				}
 			}
@@ -296,6 +306,15 @@ func (m *MustAssigner) Analyse(fn *ssa.Function, p int) *MustAssignResult {
 			case s.unknown[i] != "":
 				ls.Unknown = true
 				ls.Reason = s.unknown[i]
+			case !missingCertain[i] && hasErrorResult(fn):
+				ls.Unknown = true
+				ls.Reason = "unassigned only at a return whose error value is not known to be nil or non-nil: " + describeInstr(ret)
+			case s.dirtyStore[i] == nil && s.maybeDirty[i] != nil:
+				ls.Unknown = true
+				ls.Reason = "assigned a value obtained through a call that also receives memory holding the previous content; whether the value depends on it is not decided: " + describeInstr(s.maybeDirty[i])
+			case s.dirtyStore[i] == nil && s.partial[i] == "" && s.anyStore[i] == nil && s.calleeDirty[i] != nil && !calleeHasError(s.calleeDirty[i]):
+				ls.Unknown = true
+				ls.Reason = "handed to " + describeInstr(s.calleeDirty[i]) + ", a helper without an error result that assigns it on some of its paths only; whether its other paths can be followed by a successful return of the decoder is not decided"
 			case s.dirtyStore[i] != nil:
 				ls.Reason = "assigned a value that depends on its previous content: " + describeInstr(s.dirtyStore[i])
 				ls.Pos = s.dirtyStore[i].Pos()
@@ -318,6 +337,39 @@ func (m *MustAssigner) Analyse(fn *ssa.Function, p int) *MustAssignResult {
 	}
 	m.memo[k] = res
 	return res
+}
+
+// coversAll: the intervals cover [0, n).
+func coversAll(iv [][2]int64, n int64) bool {
+	next := int64(0)
+	for changed := true; changed && next < n; {
+		changed = false
+		for _, r := range iv {
+			if r[0] <= next && r[1] > next {
+				next = r[1]
+				changed = true
+			}
+		}
+	}
+	return next >= n
+}
+
+func returnsNilConst(ret *ssa.Return) bool {
+	if len(ret.Results) == 0 {
+		return true
+	}
+	return isNilConst(ret.Results[len(ret.Results)-1])
+}
+
+func hasErrorResult(fn *ssa.Function) bool {
+	res := fn.Signature.Results()
+	return res.Len() > 0 && isErrorType(res.At(res.Len()-1).Type())
+}
+
+func calleeHasError(c *ssa.Call) bool {
+	sig := c.Call.Signature()
+	res := sig.Results()
+	return res.Len() > 0 && isErrorType(res.At(res.Len()-1).Type())
 }
 
 // solve runs the must-dataflow to its greatest fixpoint with the current loopGenPrev/allowedPrev
@@ -414,6 +466,7 @@ func (s *maState) resetFacts() {
 	s.taintedLoad = map[ssa.Value]bool{}
 	s.allocTainted = map[*ssa.Alloc]bool{}
 	s.dirtyStore = map[int]ssa.Instruction{}
+	s.maybeDirty = map[int]ssa.Instruction{}
 	s.anyStore = map[int]ssa.Instruction{}
 	s.partial = map[int]string{}
 	s.unknown = map[int]string{}
@@ -570,6 +623,7 @@ func (s *maState) prepareEdges() {
 
 func (s *maState) transferBlock(b *ssa.BasicBlock) bitset {
 	s.cur = s.in[b].copy()
+	s.cover = nil // sub-range coverage is collected within one block only
 	for _, ins := range b.Instrs {
 		switch x := ins.(type) {
 		case *ssa.UnOp:
@@ -642,6 +696,19 @@ func (s *maState) tainted(v ssa.Value, seen map[ssa.Value]bool) bool {
 		if b, ok := x.Call.Value.(*ssa.Builtin); ok && (b.Name() == "len" || b.Name() == "cap") {
 			return s.tainted(x.Call.Args[0], seen)
 		}
+		if _, isBuiltin := x.Call.Value.(*ssa.Builtin); s.direct && !isBuiltin {
+			// what a callee makes of memory it can reach is not followed: a dependence through it is "maybe"
+			for _, a := range argsOf(&x.Call) {
+				if path, _, ok := s.pathOf(a); ok {
+					for _, li := range s.under(path) {
+						if !s.cur[li] {
+							return true
+						}
+					}
+				}
+			}
+			return false
+		}
 		for _, a := range argsOf(&x.Call) {
 			if path, _, ok := s.pathOf(a); ok {
 				// a callee reading through a pointer below the root sees old content where dirty
@@ -702,11 +769,21 @@ func (s *maState) store(st *ssa.Store) {
 		}
 		return
 	}
+	directTaint := false
+	if vt {
+		s.direct = true
+		directTaint = s.tainted(st.Val, map[ssa.Value]bool{})
+		s.direct = false
+	}
 	for _, li := range ls {
 		if vt {
 			s.cur[li] = false
-			if s.dirtyStore[li] == nil {
-				s.dirtyStore[li] = st
+			if directTaint {
+				if s.dirtyStore[li] == nil {
+					s.dirtyStore[li] = st
+				}
+			} else if s.maybeDirty[li] == nil {
+				s.maybeDirty[li] = st
 			}
 		} else {
 			s.cur[li] = true
@@ -854,6 +931,36 @@ func (s *maState) copyInto(c *ssa.Call, dst, src ssa.Value) {
 		lowOK = true
 	}
 	if !lowOK || sl.High != nil {
+		// a constant sub-range [lo:hi) that the source certainly fills: several of them, written one after the other in
+		// the same block, may add up to the whole array (`fill(lo, m[:8]); fill(hi, m[8:])`)
+		lo, hi := int64(0), arr.Len()
+		okR := true
+		if sl.Low != nil {
+			lo, okR = guards.ConstInt(sl.Low)
+		}
+		if sl.High != nil && okR {
+			hi, okR = guards.ConstInt(sl.High)
+		}
+		if okR && lo >= 0 && lo < hi && hi <= arr.Len() {
+			filled := src == dst
+			if n, ok := minLen(src, c.Block()); !filled && ok && n >= hi-lo {
+				filled = true
+			}
+			if !filled && LenAtLeastOracle != nil && LenAtLeastOracle(c, src, hi-lo) {
+				filled = true
+			}
+			if filled {
+				if s.cover == nil {
+					s.cover = map[int][][2]int64{}
+				}
+				s.cover[li] = append(s.cover[li], [2]int64{lo, hi})
+				if coversAll(s.cover[li], arr.Len()) {
+					s.cur[li] = true
+					delete(s.partial, li)
+					return
+				}
+			}
+		}
 		s.partial[li] = "copy into a sub-range of the array: " + describeInstr(c)
 		return
 	}
